@@ -15,7 +15,10 @@ for sid in sys.argv[1:]:
         vd = os.path.join(d, "verif"); os.makedirs(os.path.join(vd, "evidence"))
         for f in ("known_findings.jsonl", "exceptions.json", "properties.jsonl"):
             shutil.copy(os.path.join(VERIF, f), vd)
-        out = subprocess.run([os.path.join(VERIF, "bin/ankocheck"), "all", "--root", repo], env=dict(ENV, VERIF_DIR=vd), capture_output=True, text=True).stdout
+        out = subprocess.run([os.path.join(VERIF, "bin/ankocheck"), "all", "--root", repo], env=dict(ENV, VERIF_DIR=vd), capture_output=True, text=True)
+        if out.returncode not in (0, 1):
+            print(sid, "CHECKER DIED, status", out.returncode, (out.stdout + out.stderr)[:300]); continue
+        out = out.stdout
         fired = [l.strip() for l in out.splitlines() if re.match(r"^  C\d\d \[", l)]
         meta.setdefault("first_run_caught_by", meta.get("caught_by", []))
         meta["caught_by"] = sorted(set(re.findall(r"\[(C\d\d\.R\d+)\]", "\n".join(fired))))
